@@ -3,10 +3,13 @@ package interpreter
 //verif:pkg interpreter
 
 import (
+	ghttp "net/http"
+	"net/url"
 	"time"
 
 	"github.com/ysugimoto/falco/v2/ast"
 	"github.com/ysugimoto/falco/v2/interpreter/context"
+	ihttp "github.com/ysugimoto/falco/v2/interpreter/http"
 	"github.com/ysugimoto/falco/v2/interpreter/process"
 	"github.com/ysugimoto/falco/v2/interpreter/value"
 	"github.com/ysugimoto/falco/v2/interpreter/variable"
@@ -19,9 +22,16 @@ import (
 // built from symbolic operators run through the real interpreter; afterwards
 // every variable that was not the target must hold exactly its old value.
 
+func fRequest() *ihttp.Request {
+	return ihttp.WrapRequest(&ghttp.Request{Method: "GET", Header: ghttp.Header{}, URL: &url.URL{Path: "/"}})
+}
+
 func fm() *ast.Meta { return &ast.Meta{Token: token.Token{Line: 1, Position: 1}} }
 
 var fPoolNames = []string{"var.i1", "var.i2", "var.f1", "var.r1", "var.b1", "var.s1", "var.s2"}
+
+var fBackendA = &ast.BackendDeclaration{Meta: fm(), Name: &ast.Ident{Meta: fm(), Value: "example"}}
+var fBackendB = &ast.BackendDeclaration{Meta: fm(), Name: &ast.Ident{Meta: fm(), Value: "b2"}}
 
 type fSnap struct {
 	i1, i2       value.Integer
@@ -31,6 +41,8 @@ type fSnap struct {
 	s1v, s2v     string
 	s1ns, s2ns   bool
 	s1lit, s2lit bool
+	bk           *ast.BackendDeclaration
+	bklit        bool
 }
 
 type fPool struct {
@@ -39,6 +51,7 @@ type fPool struct {
 	r1     *value.RTime
 	b1     *value.Boolean
 	s1, s2 *value.String
+	bk     *value.Backend
 }
 
 func fSetup() (*Interpreter, *fPool) {
@@ -54,14 +67,16 @@ func fSetup() (*Interpreter, *fPool) {
 		b1: &value.Boolean{Value: nondet.Bool("b1")},
 		s1: &value.String{Value: nondet.StringIn("s1", 1, 0x20, 0x7e), IsNotSet: nondet.Bool("s1_ns")},
 		s2: &value.String{Value: nondet.StringIn("s2", 1, 0x20, 0x7e)},
+		bk: &value.Backend{Value: fBackendA},
 	}
-	i.localVars = variable.LocalVariables{"var.i1": p.i1, "var.i2": p.i2, "var.f1": p.f1, "var.r1": p.r1, "var.b1": p.b1, "var.s1": p.s1, "var.s2": p.s2}
+	i.ctx.Backends = map[string]*value.Backend{"example": {Value: fBackendA, Literal: true}, "b2": {Value: fBackendB, Literal: true}}
+	i.localVars = variable.LocalVariables{"var.i1": p.i1, "var.i2": p.i2, "var.f1": p.f1, "var.r1": p.r1, "var.b1": p.b1, "var.s1": p.s1, "var.s2": p.s2, "var.bk": p.bk}
 	return i, p
 }
 
 func (p *fPool) snap() fSnap {
 	return fSnap{i1: *p.i1, i2: *p.i2, f1: *p.f1, r1: *p.r1, b1: *p.b1, s1v: p.s1.Value, s2v: p.s2.Value,
-		s1ns: p.s1.IsNotSet, s2ns: p.s2.IsNotSet, s1lit: p.s1.Literal, s2lit: p.s2.Literal}
+		s1ns: p.s1.IsNotSet, s2ns: p.s2.IsNotSet, s1lit: p.s1.Literal, s2lit: p.s2.Literal, bk: p.bk.Value, bklit: p.bk.Literal}
 }
 
 func fSameFloat(a, b value.Float) bool {
@@ -96,7 +111,10 @@ func (p *fPool) check(i *Interpreter, before fSnap, except string, what string) 
 	if except != "var.s2" {
 		nondet.Assert(now.s2v == before.s2v && now.s2ns == before.s2ns && now.s2lit == before.s2lit, what+": var.s2 (STRING) changed")
 	}
-	nondet.Assert(len(i.localVars) == 7 && i.localVars["var.i1"] == value.Value(p.i1) && i.localVars["var.i2"] == value.Value(p.i2) &&
+	if except != "var.bk" {
+		nondet.Assert(now.bk == before.bk && now.bklit == before.bklit, what+": var.bk (BACKEND) changed")
+	}
+	nondet.Assert(len(i.localVars) == 8 && i.localVars["var.bk"] == value.Value(p.bk) && i.localVars["var.i1"] == value.Value(p.i1) && i.localVars["var.i2"] == value.Value(p.i2) &&
 		i.localVars["var.f1"] == value.Value(p.f1) && i.localVars["var.r1"] == value.Value(p.r1) && i.localVars["var.b1"] == value.Value(p.b1) &&
 		i.localVars["var.s1"] == value.Value(p.s1) && i.localVars["var.s2"] == value.Value(p.s2), what+": the local variable frame is not the caller's frame any more")
 }
@@ -170,9 +188,10 @@ func VerifSetFrame() {
 func VerifCallFrame() {
 	fSeq = 0
 	i, p := fSetup()
-	ptypes := []string{"INTEGER", "INTEGER", "FLOAT", "RTIME", "BOOL", "STRING", "STRING"}
-	argIdx := nondet.Choice("arg", len(fPoolNames))
-	arg := fPoolNames[argIdx]
+	ptypes := []string{"INTEGER", "INTEGER", "FLOAT", "RTIME", "BOOL", "STRING", "STRING", "BACKEND"}
+	argNames := append(append([]string{}, fPoolNames...), "var.bk")
+	argIdx := nondet.Choice("arg", len(argNames))
+	arg := argNames[argIdx]
 	// sub callee(<type> var.p) { declare local var.x INTEGER; set var.x = 1; set var.p <op> <expr over the callee's own names>; [return;] }
 	var rhs ast.Expression
 	switch ptypes[argIdx] {
@@ -184,6 +203,8 @@ func VerifCallFrame() {
 		rhs = &ast.RTime{Meta: fm(), Value: "5s"}
 	case "BOOL":
 		rhs = &ast.Boolean{Meta: fm(), Value: nondet.Bool("rhs")}
+	case "BACKEND":
+		rhs = &ast.Ident{Meta: fm(), Value: "b2"}
 	default:
 		rhs = &ast.String{Meta: fm(), Value: "changed"}
 	}
@@ -211,5 +232,36 @@ func VerifCallFrame() {
 	if err == nil {
 		nondet.Cover("called")
 	}
+	nondet.Cover("checked")
+}
+
+// VerifConcatFrame: `set T = A B [C]` (string concatenation, implicit or
+// explicit) with the operands chosen among the pool variables (not-set strings
+// included), a not-set header and a literal, into a local variable or a
+// header: no operand changes.
+func VerifConcatFrame() {
+	fSeq = 0
+	i, p := fSetup()
+	i.ctx.Request = fRequest()
+	i.SetScope(context.RecvScope)
+	operand := func(n string) ast.Expression {
+		names := append(append([]string{}, fPoolNames...), "req.http.Unset", "\"lit\"")
+		c := names[nondet.Choice(n, len(names))]
+		if c[0] == '"' {
+			return &ast.String{Meta: fm(), Value: "lit"}
+		}
+		return &ast.Ident{Meta: fm(), Value: c}
+	}
+	explicit := nondet.Bool("explicit")
+	var e ast.Expression = &ast.InfixExpression{Meta: fm(), Operator: "+", Explicit: explicit, Left: operand("a"), Right: operand("b")}
+	if nondet.Bool("three") {
+		e = &ast.InfixExpression{Meta: fm(), Operator: "+", Explicit: explicit, Left: e, Right: operand("c")}
+	}
+	target := []string{"var.s2", "req.http.Out"}[nondet.Choice("target", 2)]
+	stmt := &ast.SetStatement{Meta: fm(), Ident: &ast.Ident{Meta: fm(), Value: target}, Operator: &ast.Operator{Meta: fm(), Operator: "="}, Value: e}
+	before := p.snap()
+	err := i.ProcessSetStatement(stmt)
+	nondet.Observe("err", err != nil)
+	p.check(i, before, target, "set "+target+" = <concatenation>")
 	nondet.Cover("checked")
 }
